@@ -21,6 +21,7 @@ import (
 	"encoding/pem"
 	"fmt"
 	"os"
+	"path"
 	"path/filepath"
 	"sort"
 	"strconv"
@@ -676,11 +677,9 @@ func (o *oracle) record(name string, content []byte, unreadable bool) {
 	o.out[key] = h
 }
 
+// the name of a directory entry: joined and cleaned (path.Clean of the standard library)
 func childName(name, c string) string {
-	if name == "." {
-		return c
-	}
-	return name + "/" + c
+	return path.Clean(name + "/" + c)
 }
 
 func (o *oracle) visit(name string, phys []string, n *Node) {
@@ -745,63 +744,104 @@ func parsePhysical(p string) ([]string, bool) {
 }
 
 // returns the rendered expected map, "ERR", or "" (abstain)
-func oracleRecord1(root *Node, in *Input, paths, excl, strips []string, norm, follow, physical bool) (res string) {
+// locate resolves a path argument the way Lstat does: "" and "." segments are
+// skipped, ".." goes up, a link that is followed by further segments (or a
+// trailing slash) is followed, a link in final position is not.
+func (o *oracle) locate(p string) ([]string, *Node) {
+	if p == "" || strings.HasPrefix(p, "/") {
+		panic(oracleErr{})
+	}
+	segs := strings.Split(p, "/")
+	var cur []string
+	for i, seg := range segs {
+		last := i == len(segs)-1
+		switch seg {
+		case "", ".":
+			continue
+		case "..":
+			if len(cur) == 0 {
+				panic(oracleErr{})
+			}
+			cur = cur[:len(cur)-1]
+			continue
+		}
+		here := o.root.at(cur)
+		if here == nil || here.Kind != "dir" {
+			panic(oracleErr{})
+		}
+		c := here.child(seg)
+		if c == nil {
+			panic(oracleErr{})
+		}
+		if c.Kind == "link" && !last {
+			budget := 40
+			cur = o.resolve(cur, c.Target, &budget)
+			if o.root.at(cur).Kind != "dir" {
+				panic(oracleErr{})
+			}
+			continue
+		}
+		cur = append(cur, seg)
+		if c.Kind == "file" && !last {
+			panic(oracleErr{})
+		}
+	}
+	return cur, o.root.at(cur)
+}
+
+// one reading of the record: exclusion on locations or on names (physical),
+// the name of a path argument taken as given or cleaned (cleanRoot)
+func oracleRecord1(root *Node, in *Input, paths, excl, strips []string, norm, follow, physical, cleanRoot bool) (out map[string]map[string]string, res string) {
 	o := &oracle{root: root, in: in, excl: excl, strips: strips, algs: in.Algs, norm: norm, follow: follow, physical: physical,
 		out: map[string]map[string]string{}, stack: map[string]bool{}}
 	defer func() {
 		if r := recover(); r != nil {
 			if _, ok := r.(oracleErr); ok {
-				res = "ERR"
+				out, res = nil, "ERR"
 				return
 			}
 			panic(r)
 		}
 	}()
 	for _, p := range paths {
-		phys, ok := parsePhysical(p)
-		if !ok {
-			return "" // path form outside what the generator's ground truth covers
+		phys, n := o.locate(p)
+		name := p
+		if cleanRoot {
+			name = path.Clean(p)
 		}
-		// intermediate symlinks in a given path are not generated; a missing path is an error
-		n := root.at(phys)
-		if n == nil {
-			panic(oracleErr{})
-		}
-		for i := 1; i < len(phys); i++ {
-			if root.at(phys[:i]).Kind != "dir" {
-				panic(oracleErr{})
-			}
-		}
-		o.visit(p, phys, n)
+		o.visit(name, phys, n)
 	}
 	m := map[string]intoto.HashObj{}
 	for k, h := range o.out {
 		m[k] = h
 	}
-	return "OK" + lib.ShowArtifacts(m)
+	return o.out, "OK" + lib.ShowArtifacts(m)
 }
 
-func oracleRecord(root *Node, in *Input, paths, excl, strips []string, norm, follow bool) string {
-	a := oracleRecord1(root, in, paths, excl, strips, norm, follow, true)
-	b := oracleRecord1(root, in, paths, excl, strips, norm, follow, false)
+// abstains ("") when the two exclusion readings differ
+func oracleRecord(root *Node, in *Input, paths, excl, strips []string, norm, follow, cleanRoot bool) (map[string]map[string]string, string) {
+	ma, a := oracleRecord1(root, in, paths, excl, strips, norm, follow, true, cleanRoot)
+	_, b := oracleRecord1(root, in, paths, excl, strips, norm, follow, false, cleanRoot)
 	if a != b {
-		return ""
+		return nil, ""
 	}
-	return a
+	return ma, a
 }
 
 func parseShown(s string) string { return strings.TrimPrefix(s, "OK") }
 
-func oracleOf(in *Input) string {
+// what the property demands under one naming convention for path arguments
+func oracleVariant(in *Input, cleanRoot bool) string {
 	switch in.Call {
 	case "record":
-		return oracleRecord(in.Tree, in, in.Paths, in.Excl, in.Strips, in.Norm, in.Follow)
+		_, a := oracleRecord(in.Tree, in, in.Paths, in.Excl, in.Strips, in.Norm, in.Follow, cleanRoot)
+		return a
 	case "run", "startstop":
-		a := oracleRecord(in.Tree, in, in.Paths, in.Excl, in.Strips, in.Norm, in.Follow)
+		_, a := oracleRecord(in.Tree, in, in.Paths, in.Excl, in.Strips, in.Norm, in.Follow, cleanRoot)
 		if a == "" || a == "ERR" {
 			return a
 		}
-		b := oracleRecord(in.After, in, in.Paths2, in.Excl, in.Strips, in.Norm, in.Follow)
+		_, b := oracleRecord(in.After, in, in.Paths2, in.Excl, in.Strips, in.Norm, in.Follow, cleanRoot)
 		if b == "" || b == "ERR" {
 			return b
 		}
@@ -811,27 +851,17 @@ func oracleOf(in *Input) string {
 		if len(paths) == 0 {
 			paths = []string{"."}
 		}
-		o := &oracle{root: in.Tree, in: in, excl: in.Excl, strips: in.Strips, algs: in.Algs, physical: true,
-			out: map[string]map[string]string{}, stack: map[string]bool{}}
-		a := oracleRecord(in.Tree, in, paths, in.Excl, in.Strips, false, false)
+		local, a := oracleRecord(in.Tree, in, paths, in.Excl, in.Strips, false, false, cleanRoot)
 		if a == "" || a == "ERR" {
 			return a
 		}
-		// recompute the map itself (same reading; both agree here)
-		func() {
-			defer func() { recover() }()
-			for _, p := range paths {
-				phys, _ := parsePhysical(p)
-				o.visit(p, phys, in.Tree.at(phys))
-			}
-		}()
 		var onlyProd, notProd, differ []string
 		for k := range in.Products {
-			if _, ok := o.out[k]; !ok {
+			if _, ok := local[k]; !ok {
 				onlyProd = append(onlyProd, k)
 			}
 		}
-		for k, h := range o.out {
+		for k, h := range local {
 			ph, ok := in.Products[k]
 			if !ok {
 				notProd = append(notProd, k)
@@ -853,6 +883,25 @@ func oracleOf(in *Input) string {
 		return "OK" + lib.ShowStrs(onlyProd) + lib.ShowStrs(notProd) + lib.ShowStrs(differ)
 	}
 	return ""
+}
+
+// The property names a file by "its slash-separated path" and does not say
+// whether a path argument spelled "./x" or "a//b" names its file as given or
+// cleaned.  Both conventions are accepted: (A) the argument as given, entries
+// below it joined and cleaned; (B) everything cleaned.  Under either, two
+// files never share a name silently: there is one entry per file reached, or
+// an error.  The oracle is the accepted variant the implementation produced,
+// else variant A; it abstains if a variant abstains.
+func oracleOf(in *Input, impl string) string {
+	a := oracleVariant(in, false)
+	b := oracleVariant(in, true)
+	if a == "" || b == "" {
+		return ""
+	}
+	if impl == b {
+		return b
+	}
+	return a
 }
 
 // ---------------------------------------------------------------- generators
@@ -1326,6 +1375,199 @@ func genBig(r *lib.Rng, fixed int) (*Input, string) {
 	return in, klass
 }
 
+// ---- path arguments that are not clean: "./x", "a//b", "a/./b", "a/../a/b", "d/", "d/." ----
+
+func spell(r *lib.Rng, comps []string, isDir bool) string {
+	clean := strings.Join(comps, "/")
+	if len(comps) == 0 {
+		return []string{".", "./", "./.", ".//"}[r.Intn(4)]
+	}
+	// positions of directory components that can be decorated
+	ndirs := len(comps) - 1
+	if isDir {
+		ndirs = len(comps)
+	}
+	switch r.Intn(8) {
+	case 0:
+		return "./" + clean
+	case 1:
+		if len(comps) >= 2 {
+			i := 1 + r.Intn(len(comps)-1)
+			return strings.Join(comps[:i], "/") + "//" + strings.Join(comps[i:], "/")
+		}
+		return ".//" + clean
+	case 2:
+		if len(comps) >= 2 {
+			i := 1 + r.Intn(len(comps)-1)
+			return strings.Join(comps[:i], "/") + "/./" + strings.Join(comps[i:], "/")
+		}
+		return "././" + clean
+	case 3:
+		if ndirs >= 1 {
+			i := r.Intn(ndirs) // comps[i] is a directory: "…/x/../x/…"
+			pre := append(append([]string(nil), comps[:i+1]...), "..")
+			return strings.Join(append(pre, comps[i:]...), "/")
+		}
+		return "./" + clean
+	case 4:
+		if isDir || r.Chance(1, 6) { // a trailing slash on a regular file is an error
+			return clean + "/"
+		}
+		return "./" + clean
+	case 5:
+		if isDir {
+			return clean + "/."
+		}
+		return clean
+	case 6:
+		return "./" + clean + map[bool]string{true: "//", false: ""}[isDir]
+	default:
+		return clean
+	}
+}
+
+func genUnclean(r *lib.Rng, fixed bool) (*Input, string) {
+	klass := "unclean"
+	var root *Node
+	var paths, strips []string
+	mk := func(name, c string) *Node { return &Node{Kind: "file", Name: name, Content: []byte(c)} }
+	shape := r.Intn(5)
+	if fixed {
+		shape = 0
+	}
+	switch shape {
+	case 0, 1:
+		// two different files whose names coincide up to spelling once the prefix is stripped
+		f := r.Pick([]string{"a.txt", "f", "g"})
+		d := r.Pick([]string{"build", "d"})
+		if fixed {
+			f, d = "a.txt", "build"
+		}
+		root = &Node{Kind: "dir", Children: []*Node{mk(f, "top"),
+			{Kind: "dir", Name: d, Children: []*Node{mk(f, "inner"), {Kind: "dir", Name: "sub", Children: []*Node{mk(f, "deep")}}}}}}
+		strips = []string{d + "/"}
+		top := []string{"./" + f, ".//" + f, "././" + f, d + "/../" + f}[r.Intn(4)]
+		sel := r.Intn(4)
+		if fixed {
+			top, sel = "./"+f, 0
+		}
+		switch sel {
+		case 0:
+			paths = []string{top, d + "/" + f}
+		case 1:
+			paths = []string{d + "/" + f, top}
+		case 2:
+			paths = []string{top, d}
+		default:
+			paths = []string{top, spell(r, []string{d}, true)}
+			strips = []string{d + "/", "./" + d + "/"}
+		}
+		klass = "unclean-collide"
+	case 2:
+		// one directory (or file) given twice under two spellings
+		budget := r.Range(4, 10)
+		root = genDir(r, "", 0, &budget)
+		klass = "unclean-twice"
+	default:
+		budget := r.Range(4, 12)
+		root = genDir(r, "", 0, &budget)
+	}
+	root.sortRec()
+	classes := assignTargets(r, root, false)
+	var all []located
+	root.all(nil, &all)
+	for _, l := range all {
+		if l.n.Kind == "link" && (l.n.Target == "nowhere" || l.n.Target == l.n.Name) {
+			l.n.Kind, l.n.Content, l.n.Target = "file", []byte("was-link"), ""
+		}
+	}
+	delete(classes, "dangling")
+	delete(classes, "selfloop")
+	if paths == nil {
+		var cand []located
+		for _, l := range all {
+			if l.n.Kind != "link" { // spelled arguments name real files and directories
+				ok := true
+				for i := 1; i < len(l.path); i++ {
+					if root.at(l.path[:i]).Kind != "dir" {
+						ok = false
+					}
+				}
+				if ok {
+					cand = append(cand, l)
+				}
+			}
+		}
+		pick := func() located { return cand[r.Intn(len(cand))] }
+		if klass == "unclean-twice" {
+			l := pick()
+			paths = []string{spell(r, l.path, l.n.Kind == "dir"), spell(r, l.path, l.n.Kind == "dir")}
+		} else {
+			n := r.Range(1, 3)
+			for i := 0; i < n; i++ {
+				l := pick()
+				paths = append(paths, spell(r, l.path, l.n.Kind == "dir"))
+			}
+		}
+		l := pick()
+		switch r.Intn(6) {
+		case 0:
+			strips = []string{"./"}
+		case 1:
+			if len(l.path) > 0 {
+				strips = []string{l.path[0] + "/"}
+			}
+		case 2:
+			if len(l.path) > 0 {
+				strips = []string{"./" + l.path[0] + "/", l.path[0] + "/"}
+			}
+		case 3:
+			strips = treeStrips(r, root)
+		}
+	}
+	in := &Input{Call: "record", Tree: root, Paths: paths, Strips: strips, Algs: algChoices[r.Intn(7)],
+		Excl: [][]string{nil, nil, nil, {"*.pub"}, {"x.pub"}}[r.Intn(5)], Norm: r.Bool(), Follow: r.Bool()}
+	call := r.Intn(10)
+	if fixed {
+		call = 9
+	}
+	switch call {
+	case 0, 1:
+		in.Call = "run"
+		in.Paths2 = paths
+		if r.Bool() {
+			in.Paths2 = []string{"."}
+		}
+		in.Ops = genOps(r, root)
+		in.After = applyOps(root, in.Ops)
+	case 2, 3:
+		in.Call = "match"
+		in.Products = map[string]map[string]string{}
+		if local, st := oracleRecord(root, in, paths, in.Excl, in.Strips, false, false, false); st != "" && st != "ERR" {
+			for _, k := range lib.SortedKeys(local) {
+				h := map[string]string{}
+				for a, v := range local[k] {
+					h[a] = v
+				}
+				switch r.Intn(5) {
+				case 0:
+					continue
+				case 1:
+					for a := range h {
+						h[a] = tagOf(a, []byte("changed"))
+						break
+					}
+				}
+				in.Products[k] = h
+			}
+		}
+		if r.Bool() {
+			in.Products["only/in/link"] = map[string]string{"sha256": tagOf("sha256", []byte("gone"))}
+		}
+	}
+	return in, klassOf(klass+":"+in.Call, classes)
+}
+
 func genOps(r *lib.Rng, root *Node) []Op {
 	var all []located
 	root.all(nil, &all)
@@ -1501,6 +1743,8 @@ func genCase(r *lib.Rng, i int) (*Input, string) {
 		return genBig(r, 1)
 	case i == 3:
 		return genBig(r, 2)
+	case i == 4 || i == 5 || (k >= 84 && k < 90):
+		return genUnclean(r, i == 4)
 	case k >= 96:
 		return genBig(r, 0)
 	case k < 8:
@@ -1592,7 +1836,7 @@ func main() {
 			in, klass := genCase(r.Fork(), i)
 			normalise(in)
 			impl := runImpl(in)
-			w.Put(lib.Case{Klass: klass, Input: lib.MustJSON(in), Impl: impl, Oracle: oracleOf(in),
+			w.Put(lib.Case{Klass: klass, Input: lib.MustJSON(in), Impl: impl, Oracle: oracleOf(in, impl),
 				CoqModel: coqModel(in), Trivial: isTrivial(in, impl)})
 		}
 		w.Close()
@@ -1609,8 +1853,11 @@ func main() {
 			panic(err)
 		}
 		normalise(c.Input)
-		fmt.Println("impl:   " + strconv.Quote(runImpl(c.Input)))
-		fmt.Println("oracle: " + strconv.Quote(oracleOf(c.Input)))
+		impl := runImpl(c.Input)
+		fmt.Println("impl:   " + strconv.Quote(impl))
+		fmt.Println("oracle: " + strconv.Quote(oracleOf(c.Input, impl)))
+		fmt.Println("oracle, names as given: " + strconv.Quote(oracleVariant(c.Input, false)))
+		fmt.Println("oracle, names cleaned:  " + strconv.Quote(oracleVariant(c.Input, true)))
 		fmt.Println("coq_model: " + coqModel(c.Input))
 	}
 }
